@@ -1,5 +1,5 @@
 (** The small abstract vocabulary the C18 theorems are stated in. *)
-From Coq Require Import List Bool ZArith NArith QArith.
+From Coq Require Import List Bool ZArith NArith QArith Permutation.
 From DV Require Import Common.Res Common.Str Group.Model.
 Import ListNotations.
 
@@ -43,7 +43,7 @@ Section Drop.
 
   (** the path list without the image files whose payload fails [p] *)
   Definition keep_rd (r : rd F) : bool :=
-    match r with Fault _ => true | Data attrs f _ => negb (is_image attrs) || p f end.
+    match r with Fault _ | ExtractFault _ _ => true | Data attrs f _ => negb (is_image attrs) || p f end.
   Definition drop_files (l : list (rd F)) : list (rd F) := filter keep_rd l.
 
   (** along the additions of one group: every file failing [p] is refused when its turn comes *)
@@ -60,3 +60,20 @@ End Drop.
     representative when the dropped files are taken out of the path list) *)
 Definition heads_closed {F} (p : F -> bool) (gs : list (group F)) : Prop :=
   forall g f, In g gs -> hd_error (snd g) = Some f -> p f = false -> filter p (snd g) = [].
+
+(** two full keys agree entry by entry: equal on the exactly compared keys, close (the code's own test,
+    [close_elem]) on the tolerance-compared ones *)
+Fixpoint keys_close (group_by close_tests : list str) (atol : Q) (k k' : list gval) : Prop :=
+  match group_by, k, k' with
+  | [], [], [] => True
+  | g :: gs, x :: xs, y :: ys =>
+      (if mem_str g close_tests then close_elem atol x y = Ok true else x = y) /\
+      keys_close gs close_tests atol xs ys
+  | _, _, _ => False
+  end.
+
+(** the same stacks under keys that correspond one to one up to [keys_close] *)
+Definition same_stacks_up_to_keys {state} (group_by close_tests : list str) (atol : Q)
+           (sts sts' : list (list gval * state)) : Prop :=
+  exists sts'', Permutation sts' sts'' /\
+                Forall2 (fun a b => keys_close group_by close_tests atol (fst a) (fst b) /\ snd a = snd b) sts sts''.
